@@ -320,7 +320,7 @@ __CPROVER_ensures(!__CPROVER_return_value == !xv_tmg.expired_ret && xv_tmg.expir
 /* every slot holds -1 or a LIVE registration id, no id twice (stated for the arbitrary id xv_rk) */
 #define XQ_REGS_OK(q) (XQ_ALL(q, XQF_ID_RANGE) && XQ_SUM(q, XQF_IS_RK) <= 1 && (XQ_SUM(q, XQF_IS_RK) == 1 ==> xv_xr.rk_live) && \
                        xv_xr.regs >= XQ_NREGS(q) + 1 && \
-                       xv_tmg.mgr_reg_id >= 0 && XQ_ALL(q, XQF_NOT_MGR) && (xv_tmg.mgr_reg_id == xv_rk ==> xv_xr.rk_live))
+                       xv_tmg.mgr_reg_id >= 0 && (xv_tmg.mgr_reg_id == xv_rk ==> (xv_xr.rk_live && XQ_SUM(q, XQF_IS_RK) == 0)))
 #define XQF_NOT_MGR(q, i) (XQ_ID(q, i) != xv_tmg.mgr_reg_id)
 #define XQ_HELD_T(id) ((id) >= 0 ? 1 : 0)
 #define XQ_TIMERS_OK(q) ((q)->ares_timer_id >= -1 && (q)->overall_timer_id >= -1 && ((q)->ares_timer_id < 0 || (q)->ares_timer_id != (q)->overall_timer_id) && \
